@@ -692,6 +692,16 @@ def corpus():
     tri = [[7, 8], [7, 9], [8, 9], [7, 10], [8, 10], [9, 11], [8, 11], [0, 11], [1, 11], [0, 12], [1, 12], [2, 12]]
     out.append(_case(k7 + tri, 7, [0, 0, 0]))
     out.append(_case(k7 + tri, 7, mode="all", cap=40))
+    # graphs on which exact-rational scores and the binary64 scores of the code pick different cliques (found by search)
+    fl1 = [(0, 1), (0, 2), (0, 3), (0, 4), (0, 5), (0, 6), (0, 7), (0, 8), (1, 2), (1, 3), (1, 4), (1, 5), (1, 6), (1, 7),
+           (1, 8), (2, 3), (2, 4), (2, 5), (2, 6), (3, 4), (3, 5), (3, 6), (3, 7), (3, 8), (4, 5), (4, 6), (4, 7), (4, 8),
+           (5, 6), (5, 7), (6, 8)]
+    fl2 = [(0, 1), (0, 2), (0, 3), (0, 4), (0, 5), (0, 6), (0, 7), (0, 8), (0, 9), (1, 2), (1, 3), (1, 4), (1, 5), (1, 6),
+           (1, 9), (2, 3), (2, 4), (2, 5), (2, 6), (2, 7), (3, 4), (3, 5), (3, 6), (3, 7), (4, 5), (4, 6), (4, 7), (4, 8),
+           (4, 9), (5, 6), (5, 7), (6, 8), (8, 9)]
+    for fl in (fl1, fl2):
+        out.append(_case(fl, 7, []))
+        out.append(_case(fl, 7, mode="all", cap=30))
     # two K4 sharing an edge, two K5 sharing a triangle, m0 below / at / above
     for m0 in (2, 3, 4, 5, 6):
         out.append(_case(_kn([0, 1, 2, 3]) + _kn([2, 3, 4, 5]), m0, mode="all", cap=80))
